@@ -28,7 +28,7 @@ void COO_append_T(const COOMatrix* A, const std::vector<T>& vals,
 {
     for (int i = 0; i < A->nnz; i++)
     {
-        A->append_T(A->idx2[i], A->idx1[i], b, x, vals[i]);
+        A->append_T(A->idx1[i], A->idx2[i], b, x, vals[i]);
     }
 }
 template <typename T>
